@@ -127,6 +127,11 @@ def shape(e, roles=None, depth=20):
         inner = e.x
         while isinstance(inner, Named) and inner.local not in roles:
             inner = inner.x
+        if isinstance(inner, Call) and inner.t.get("resolved_local") and len(inner.args) == 1:
+            # `x.get_pair().0` is `x.get_first()` when the crate has both accessors
+            comp = _tuple_getter_component(inner, e.idx)
+            if comp is not None:
+                return "%s(%s)" % (comp, shape(inner.args[0], roles, depth - 1))
         if isinstance(inner, Bin) and inner.op.endswith("WithOverflow") and e.idx == 0:
             return shape(Bin(inner.op[:-len("WithOverflow")], inner.l, inner.r, inner.lty), roles, depth)
         if isinstance(inner, Downcast) and e.idx == 0:
@@ -140,7 +145,10 @@ def shape(e, roles=None, depth=20):
                 if isinstance(arg, Var) and getattr(arg, "ok_payload", None) is not None and arg.local not in roles:
                     return shape(arg.ok_payload, roles, depth - 1)  # `?` on a value built as Ok(p)/Some(p) at one place: p
                 return "try(%s)" % shape(base.args[0], roles, depth - 1)
-            return "%s(%s)" % (inner.variant.lower(), shape(inner.x, roles, depth - 1))
+            v = inner.variant.lower()
+            if v in ("some", "ok", "continue"):
+                v = "try"  # the payload on the success path, however it was taken (`?`, `if let`, `match`)
+            return "%s(%s)" % (v, shape(inner.x, roles, depth - 1))
         return "%s.%s" % (shape(e.x, roles, depth - 1), e.name)
     if isinstance(e, Index):
         xs = shape(e.x, roles, depth - 1)
@@ -213,6 +221,71 @@ def shape(e, roles=None, depth=20):
 import re as _re
 
 _LAMBDA_CACHE = {}
+_GETTER_INDEX = {}
+
+
+def _getter_index(facts):
+    """{(impl self type, λ-shape): printed callee} for the one-argument straight-line functions of the crate."""
+    key = id(facts)
+    if key not in _GETTER_INDEX:
+        idx = {}
+        for b in facts.bodies:
+            if b.promoted is None and b.kind in ("Fn", "AssocFn") and b.arg_count == 1 and not b.derived:
+                lam = _plain_lambda(b)
+                if lam is not None:
+                    idx.setdefault((b.raw.get("parent"), lam), nice(b.path))
+        _GETTER_INDEX[key] = idx
+    return _GETTER_INDEX[key]
+
+
+def _plain_lambda(b):
+    if any(b.blocks[x]["term"]["k"] == "switch" for x in range(len(b.blocks)) if not b.blocks[x]["cleanup"]):
+        return None
+    ds = b.defs.get(0, [])
+    if len(ds) != 1 or b.partial_defs.get(0):
+        return None
+    bi, si, kind, node = ds[0]
+    e = b.expr_of_rvalue(node["rv"]) if kind == "assign" else b.expr_of_call(node)
+    sh = shape(e, {1: "p1"}, 10)
+    return sh if len(sh) < 200 else None
+
+
+def _tuple_getter_component(call, k):
+    owner = getattr(call, "owner", None)
+    if owner is None:
+        return None
+    facts = owner.facts
+    path = call.t.get("resolved") or call.t.get("callee")
+    b = facts.body(path, required=False)
+    if b is None or b.arg_count != 1:
+        return None
+    lam = _plain_lambda(b)
+    if lam is None or not lam.startswith("tuple("):
+        return None
+    parts = _split_args(lam[len("tuple("):-1])
+    if k >= len(parts):
+        return None
+    m = _re.match(r"^([\w:]+)\(p1\)$", parts[k])
+    if m:
+        return m.group(1)  # the pair is itself built from the single accessors
+    return _getter_index(facts).get((b.raw.get("parent"), parts[k]))
+
+
+def _split_args(s):
+    out, depth, cur = [], 0, ""
+    for ch in s:
+        if ch in "({[":
+            depth += 1
+        elif ch in ")}]":
+            depth -= 1
+        if ch == "," and depth == 0:
+            out.append(cur)
+            cur = ""
+        else:
+            cur += ch
+    if cur:
+        out.append(cur)
+    return out
 
 
 def const_value_shape(owner, c):
@@ -538,13 +611,31 @@ def facts_at(body, bb, roles=None):
 def def_shapes(body, local, roles=None):
     """List of (shape, (bb, idx)) for every whole-local definition of `local`."""
     out = []
-    for bi, si, kind, node in body.defs.get(local, []):
+    for bi, si, kind, node in _expanded_defs(body, local, 3):
         if kind == "assign":
             e = body.expr_of_rvalue(node["rv"])
         else:
             e = body.expr_of_call(node)
         out.append((shape(e, roles), (bi, si), e))
     return out
+
+
+def _expanded_defs(body, local, depth):
+    """Definitions of a local; a definition that merely moves an unnamed temporary with several
+    definitions of its own (`_0 = move _t` after `_t = Ok(..)` / `_t = Err(..)`: what remains of a
+    helper's return value once it is inlined, or of a `match` used as tail expression) is replaced
+    by the temporary's definitions."""
+    res = []
+    for d in body.defs.get(local, []):
+        bi, si, kind, node = d
+        if depth > 0 and kind == "assign" and node["rv"]["k"] == "use" and node["rv"]["op"]["k"] in ("move", "copy"):
+            pl = node["rv"]["op"]["place"]
+            x = pl["l"]
+            if not pl["p"] and x not in body.var_names and x > body.arg_count and len(body.defs.get(x, [])) > 1 and not body.partial_defs.get(x):
+                res.extend(_expanded_defs(body, x, depth - 1))
+                continue
+        res.append(d)
+    return res
 
 
 def find_local(body, name):
